@@ -98,3 +98,9 @@ fire("C07", J, "        return list(map(value_to_json, value))\n    if isinstanc
 fire("C07", I, '{"$ref": "#/definitions/Freevar"},\n', "")
 fire("C07", J, '            if v == "-inf":\n                return float("-inf")\n', "")
 fire("C07", J, '        if "docstring" in tp:\n            tp["docstring"] = constant_value_from_json(tp["docstring"])\n', "", "the original defect, decoder half")
+# ---- C15
+fire("C15", J, '            return {"string": ascii(value)}', '            return {"string": repr(value)}', "the original defect")
+fire("C15", N, "    if isinstance(x, NoArg):\n        return cast(T, NoArg())", "    if isinstance(x, NoArg):\n        import sys\n        return cast(T, NoArg()) if sys.version_info >= (3, 10) else x")
+fire("C15", J, "MIN_INTEGER, MAX_INTEGER = (-(2**53) + 1, (2**53) - 1)", "import sys\nMIN_INTEGER, MAX_INTEGER = (-(2**53) + 1, (2**53) - 1) if sys.version_info >= (3, 9) else (-(2**31), 2**31)")
+silent(["C15"], N, "from dataclasses import replace", "from dataclasses import replace\nimport sys", "an unused import is harmless")
+silent(["C15", "C07", "C08"], I, "from typing_extensions import Literal", "import sys\nif sys.version_info >= (3, 8):\n    from typing import Literal\nelse:\n    from typing_extensions import Literal", "import-only version switch")
